@@ -529,6 +529,41 @@ def gen_c12_swap_case(rng, cache_size=None, template=None):
     return {"cfg": cfg, "init": init, "pdatas": [{}], "steps": steps, "_meta": {"style": "swap"}}
 
 
+def gen_c12_listmerge_case(rng, cache_size=None, template=None):
+    """the same key holds a list (a set, a mapping) in several applied files and the lists are merged; then a LATER
+    file (or top.yaml) changes while the earlier files stay as they are and are served from the per-file cache: the
+    result must be recomputed from the earlier files' own content, not from what was merged into it before"""
+    cfg = gen_cfg(rng)
+    cfg["template"] = template
+    cfg["allow_empty_top"] = False
+    cfg["merge_lists"] = rng.random() < 0.85
+    cfg["merge_sets"] = rng.random() < 0.7
+    cfg["cache_size"] = cache_size if cache_size is not None else rng.choice([1, 2, 64])
+    def spec(items):
+        return {"blocks": [{"cond": None, "items": items}]}
+    def later(n):
+        return spec([["l", [rng.choice(["u", "v", 3, n])] + ([[1]] if rng.random() < 0.2 else [])],
+                     ["d", {"u": [n, 2], "w": {"y": [n]}}], ["s", {"$set": [rng.choice("bcd")]}]])
+    files = {"a": spec([["l", [1, 2]], ["d", {"u": [1], "w": {"y": [1]}}], ["s", {"$set": ["a"]}]]),
+             "b": later(5), "c": later(6)}
+    names = ["a", "b"] + (["c"] if rng.random() < 0.5 else [])
+    if rng.random() < 0.3:
+        files["a"]["blocks"][0]["items"].append(["include", ["b"]])    # the later file arrives through an include
+        names = ["a"]
+    init = {"top": spec([["*", names]]), "files": files, "dirs": []}
+    steps = [["get", "s1", 0]]
+    for i in range(rng.randint(1, 4)):
+        r = rng.random()
+        if r < 0.6:
+            steps.append(["write", rng.choice(["b", "c"]), later(7 + i)])
+        elif r < 0.8:
+            steps.append(["top", spec([["*", rng.choice([["a"], ["a", "c"], ["a", "b"], ["b", "a"]])]])])
+        else:
+            steps.append(["get", rng.choice(["s1", "s2"]), 0])
+        steps.append(["get", "s1", 0])
+    return {"cfg": cfg, "init": init, "pdatas": [{}], "steps": steps, "_meta": {"style": "listmerge"}}
+
+
 def gen_lru_case(rng, size):
     alphabet = ["a", "b", "c", "d"][:rng.choice([2, 3, 4])]
     ops = []
